@@ -78,6 +78,11 @@ def cases(tier, seed):
         coef = tuple(float(x) / 4 for x in rng.integers(-6, 7, size=3)) + (0.375,)
         y0 = (rng.integers(-8, 9, size=2) / 4.0).tolist()
         out.append(dict(steps=steps, m=m, t0=t0, dde=dde, dt=dt, dts=m * dt, T=steps * dt, coef=coef, y0=y0))
+    # delayed loops on a history that already holds an initial FUNCTION (four records before the start), run long enough to outgrow the
+    # 1024-row buffer: the records handed in stay what they were and the new ones follow them
+    for steps, m in ((40, 2), (1100, 50)):
+        out.append(dict(steps=steps, m=m, t0=0, dde=True, dt=1.0 / 256, dts=m / 256.0, T=steps / 256.0, coef=(-0.5, 0.25, 0.0, 0.375), y0=[0.5, -1.25],
+                        prefill=[(-0.75, [1.0, 0.5]), (-0.5, [0.25, -0.5]), (-0.25, [-1.0, 2.0])]))
     return out
 
 
@@ -96,7 +101,14 @@ def run(contracts_by_variant, classes, tier, seed, DDEHistory, resolve_fn):
             y = np.array(case["y0"], dtype=float)
             args = ()
             if case["dde"]:
-                args = (DDEHistory(y.copy(), t0=0.0),)
+                if case.get("prefill"):
+                    h_ = DDEHistory(np.array(case["prefill"][0][1], dtype=float), t0=case["prefill"][0][0])
+                    for t_, y_ in case["prefill"][1:]:
+                        h_.update(t_, np.array(y_, dtype=float))
+                    h_.update(0.0, y.copy())
+                    args = (h_,)
+                else:
+                    args = (DDEHistory(y.copy(), t0=0.0),)
             cc = dict(c)
             cc["native_spec_factories"] = {f"{kind}_iter": spec_factory(kind, case["dde"])}
             a = dict(func=f, args=args, T=case["T"], dt=case["dt"], dts=case["dts"], y=y, t0=case["t0"])
